@@ -129,7 +129,8 @@ func (backupManager *BackupManager) DoNativeBackup() error {
 	backupFilename := backupManager.backupLocation + string(os.PathSeparator) + "datahub-backup.kv"
 	var file *os.File
 	if backupManager.fileExists(backupFilename) {
-		file, _ = os.Open(backupFilename)
+		// append this run's increment; os.Open would give a read-only file and the run would write nothing
+		file, _ = os.OpenFile(backupFilename, os.O_WRONLY|os.O_APPEND, 0o600)
 	} else {
 		file, _ = os.Create(backupFilename)
 	}
